@@ -98,7 +98,7 @@ def rechunk(rng, items, mode):
 
 class ReaderStream:
     name = "reader"
-    props = ["C05"]
+    props = ["C05", "C01"]
     keep_prefix = 1
 
     def gen(self, rng, tier):
@@ -160,6 +160,24 @@ class ReaderStream:
             else:
                 # the malformed stream
                 stream += rng.choice([b"\xf0\x00", b"\x00\x02\x10\x00", b"\x00", b"\x40\x01\x00", b"\x30\x01\x00", b"\x20\x81\x81\x81\x81\x81\x01", DecodeStream().rand_packet(rng, proto)])
+        if stream and rng.random() < 0.15:
+            # the peer falls silent in the middle of a packet and the connection is ended by something other than a read
+            # error - the application replaces it, disconnects, or the keep-alive gives up; a new connection is then
+            # established: its CONNACK (and what follows) must be decoded as on any fresh connection
+            cut = stream[:rng.randrange(1, len(stream))]
+            case.append("rxbytes " + ",".join(chunk(rng, cut)))
+            how = rng.choice(["reconnect", "connect", "disconnect", "keepalive"])
+            if how == "disconnect":
+                case.append("disconnect")
+            elif how == "keepalive":
+                case += ["tick 60000", "loop_misc", "tick 60000", "loop_misc"]
+            case.append("connect ok" if how == "connect" else "reconnect ok")
+            nxt = wire.enc_connack(proto, sp=rng.randrange(2), rc=0, props=P(wire.CONNACK))
+            if rng.random() < 0.6:
+                nxt += wire.enc_publish(proto, b"t", bytes(rng.randrange(256) for _ in range(rng.choice([0, 5, 130]))), qos=rng.choice([0, 1]),
+                                        retain=0, dup=0, mid=9, props=P(wire.PUBLISH))
+            case.append("rxbytes " + ",".join(chunk(rng, nxt)))
+            return case
         if stream or rng.random() < 0.5:
             x = rng.random()
             if x < 0.25 and stream and rng.random() < 0.5:
@@ -192,6 +210,21 @@ class ReaderStream:
     def monitor_C05(self, case, obs):
         import random
         hits = []
+        # a well-formed CONNACK that is the first thing a fresh connection delivers is handed to on_connect with its values
+        fresh = False
+        for k, (line, o) in enumerate(zip(case, obs)):
+            t = line.split()
+            if t[0] in ("connect", "reconnect") and t[1] == "ok":
+                fresh = "sopen" in o
+            elif t[0] == "rxbytes" and fresh:
+                fresh = False
+                data = b"".join(unhx(x) for x in t[1].split(",") if x not in (".", "eof", "err"))
+                if len(data) >= 4 and data[0] == 0x20 and data[1] < 128 and len(data) >= 2 + data[1]:
+                    sp, rc = data[2] & 1, data[3]
+                    if rc == 0 and f"on_connect:{rc}:{sp}" not in o.split(" | ")[0].split(";"):
+                        hits.append((k, "connack-first", f"the CONNACK (session present {sp}, result 0) that opens a fresh connection was not handed to on_connect: <{o[:160]}>"))
+        if hits:
+            return hits
         base = self.canon(obs)
         rng = random.Random(hash("\n".join(case)) & 0xFFFFFFFF)
         for mode in ("whole", "bytes", "random"):
@@ -211,7 +244,52 @@ class ReaderStream:
                 break
         return hits
 
-    monitors = {"C05": monitor_C05}
+    def monitor_C01(self, case, obs):
+        """C01 on the byte-level conversations: when the CONNACK that opens a fresh connection accepts it, every QoS 1/2 message
+        the client still owns is transmitted again on it - as PUBLISH or PUBREL - in that very loop_read() (window permitting:
+        judged only when the window cannot be the reason)"""
+        hits = []
+        cfg = sess.parse_cfg(case[0].split()[1:])
+        N = cfg["N"]
+        fresh = False
+        prev = ""
+        for k, (line, o) in enumerate(zip(case, obs)):
+            t = line.split()
+            ev, _, probe = o.partition(" | ")
+            if t[0] in ("connect", "reconnect") and t[1] == "ok":
+                fresh = "sopen" in o
+            elif t[0] == "rxbytes" and fresh:
+                fresh = False
+                data = b"".join(unhx(x) for x in t[1].split(",") if x not in (".", "eof", "err"))
+                owned = [x.split(".") for x in prev.split("out=[")[1].split("]")[0].split(",") if x] if "out=[" in prev else []
+                if len(data) >= 4 and data[0] == 0x20 and data[1] < 128 and len(data) >= 2 + data[1] and data[3] == 0 and owned \
+                        and (N == 0 or len(owned) <= N) and "sclose" not in ev:
+                    sent = set()
+                    buf = {}
+                    for e in ev.split(";"):
+                        if e.startswith("tx"):
+                            c_, _, h = e[2:].partition(":")
+                            buf[c_] = buf.get(c_, b"") + unhx(h)
+                    for b in buf.values():
+                        try:
+                            pk, _ = wire.split_packets(b)
+                        except wire.Malformed:
+                            continue
+                        for p_ in pk:
+                            if p_[0] >> 4 in (3, 6):
+                                try:
+                                    d = wire.dec_client_packet(p_, cfg["proto"])
+                                    sent.add(d.get("mid"))
+                                except Exception:  # noqa: BLE001
+                                    pass
+                    missing = [int(m[0]) for m in owned if int(m[0]) not in sent]
+                    if missing:
+                        hits.append((k, "retransmit-missing", f"the CONNACK accepted the re-established connection but the stored message(s) {missing} were not "
+                                     f"transmitted again (client state before: {prev[:120]})"))
+            prev = probe
+        return hits
+
+    monitors = {"C05": monitor_C05, "C01": monitor_C01}
 
     def features(self, case, obs):
         f = set()
